@@ -143,6 +143,35 @@ func ruleElemLoops(c *Ctx) {
 					}
 				}
 			}
+			if el.fn == "Array.DeleteElems" {
+				cbTrue, cbFalse, nops := false, false, 0
+				for _, cd := range sp.Conds {
+					if o := strings.TrimPrefix(cd.Other, "!"); strings.HasPrefix(o, "var:") && strings.Contains(o, "(L:") {
+						if strings.HasPrefix(cd.Other, "!") {
+							cbFalse = true
+						} else {
+							cbTrue = true
+						}
+					}
+				}
+				emptyRange := false
+				for _, cd := range sp.Conds {
+					if cd.Other == "" && cd.Op == token.GEQ && strings.Contains(cd.L.String(), "L:i.off@Advance") && strings.Contains(cd.R.String(), "L:i.addNext@Advance") {
+						emptyRange = true // fill loop entered with an empty range: not a real element
+					}
+				}
+				for _, ef := range sp.Effects {
+					if ef.Kind == "store" && strings.HasSuffix(ef.Base, ".Tape") && isNopAff(ef.Val) {
+						nops++
+					}
+				}
+				if cbFalse && nops > 0 {
+					note("an element is overwritten with NOPs although the callback returned false", sp)
+				}
+				if cbTrue && !cbFalse && nops == 0 && !emptyRange {
+					note("an element whose callback returned true is not deleted", sp)
+				}
+			}
 			if sp.Continues {
 				nCont++
 				switch {
